@@ -13,3 +13,7 @@ package common
 //@   inline
 //@ func HasQuietNanBitSet32
 //@   inline
+//@ func Float32FromFloat16Bits
+//@   inline
+//@ func ElementCountToByteCount
+//@   inline
